@@ -12,9 +12,12 @@ on the unit circle:
   `r · v = √(GM a) e sin E`; the algebraic part of the inverse (`a`, `e` recovered exactly);
   Kepler's equation for `M`; `cos f`, `sin f` and the half-angle relation for the true anomaly.
 
+Also proved: over ℝ (with `arctan2 y x := arg (x + iy)`), `trs2kepler (kepler2trs k) = k` for every
+bound inclined orbit with the angles in their principal ranges (`trs2kepler_kepler2trs`).
+
 Not proved (decided by the correspondence/oracle of harness/c07.py over the stated element ranges):
-that libm's `arctan2` returns each angle in its principal range and the resulting full inverse
-`< 1e-8`; floating-point error.
+that libm's `arctan2` agrees with the real `arg` to rounding and the resulting `< 1e-8` bound of
+the IEEE evaluation.
 -/
 import Midgard.Proofs.GeoReal
 import Midgard.Model.Kepler
@@ -227,6 +230,130 @@ theorem fac_g_hypotheses (GM a e : ℝ) (he0 : 0 ≤ e) (he1 : e ≤ 1) (hg : 0 
     Real.sqrt ((1 - e) * (1 + e)) ^ 2 = (1 - e) * (1 + e) ∧ Real.sqrt (GM * a) ^ 2 = GM * a :=
   ⟨Real.sq_sqrt (by nlinarith), Real.sq_sqrt hg⟩
 
+/-! ## the full inverse over the reals -/
+
+/-- **`trs2kepler ∘ kepler2trs = id`** over ℝ for every bound (`0 < e < 1`, `a > 0`), inclined
+(`0 < i < π`) orbit with the node and the eccentric anomaly in `arctan2`'s principal range `(−π, π]` and the
+argument of perigee in `[0, 2π)`: the elements returned by `trs2kepler` are exactly the elements the state
+was built from — in particular every returned angle is the principal-range representative.
+(For angles outside these ranges the state is unchanged when they are reduced mod 2π, so the returned
+elements are the reduced ones.)  What remains unproved for the code is only the IEEE evaluation. -/
+theorem trs2kepler_kepler2trs (GM : ℝ) (k : Kep ℝ) (hGM : 0 < GM) (ha : 0 < k.a) (he0 : 0 < k.e) (he1 : k.e < 1)
+    (hi0 : 0 < k.i) (hi1 : k.i < Real.pi) (hO : k.Omega ∈ Set.Ioc (-Real.pi) Real.pi)
+    (hE : k.E ∈ Set.Ioc (-Real.pi) Real.pi) (hw0 : 0 ≤ k.omega) (hw1 : k.omega < 2 * Real.pi) :
+    trs2kepler GM (kepler2trs GM k) = k := by
+  obtain ⟨a, e, i, Om, om, E⟩ := k
+  simp only at ha he0 he1 hi0 hi1 hO hE hw0 hw1
+  rw [kepler2trs_eq_state]
+  simp only
+  set fac := Real.sqrt ((1 - e) * (1 + e)) with hfacd
+  set g := Real.sqrt (GM * a) with hgd
+  obtain ⟨hfac, hg⟩ := fac_g_hypotheses GM a e he0.le he1.le (by positivity)
+  rw [← hfacd] at hfac
+  rw [← hgd] at hg
+  have hcO := Real.cos_sq_add_sin_sq Om
+  have hci := Real.cos_sq_add_sin_sq i
+  have hcw := Real.cos_sq_add_sin_sq om
+  have hcE := Real.cos_sq_add_sin_sq E
+  obtain ⟨hrad, hr0⟩ := true_anomaly_radius e E he0.le he1
+  have hfacpos : 0 < fac := Real.sqrt_pos.mpr (by nlinarith)
+  have hgpos : 0 < g := Real.sqrt_pos.mpr (by positivity)
+  have hsi : 0 < Real.sin i := Real.sin_pos_of_pos_of_lt_pi hi0 hi1
+  have hrne : 1 - e * Real.cos E ≠ 0 := hr0.ne'
+  have hane : a ≠ 0 := ha.ne'
+  set S := state a e fac g (Real.cos Om) (Real.sin Om) (Real.cos i) (Real.sin i) (Real.cos om) (Real.sin om)
+    (Real.cos E) (Real.sin E) with hS
+  -- norms
+  have hpN : S.p.norm = a * (1 - e * Real.cos E) := by
+    rw [V3.norm_eq, radius a e fac g _ _ _ _ _ _ _ _ hfac hcO hci hcw hcE, Real.sqrt_sq (by positivity)]
+  have hvN : S.v.norm * S.v.norm = GM * (2 / (a * (1 - e * Real.cos E)) - 1 / a) := by
+    rw [← _root_.sq, V3.norm_sq, vis_viva GM a e fac g _ _ _ _ _ _ _ _ hfac hg hcO hci hcw hcE hane hrne]
+  have hh : V3.cross S.p S.v = V3.smul (fac * g) (wHat (Real.cos Om) (Real.sin Om) (Real.cos i) (Real.sin i)) :=
+    angular_momentum a e fac g _ _ _ _ _ _ _ _ hcO hcw hcE hane hrne
+  have hhN : (V3.cross S.p S.v).norm = fac * g := by
+    rw [V3.norm_eq, angular_momentum_norm GM a e fac g _ _ _ _ _ _ _ _ hfac hg hcO hci hcw hcE hane hrne]
+    rw [show GM * a * (1 - e ^ 2) = (fac * g) ^ 2 by rw [mul_pow, hfac, hg]; ring, Real.sqrt_sq (by positivity)]
+  have hhu : (V3.cross S.p S.v).sdiv (fac * g) = wHat (Real.cos Om) (Real.sin Om) (Real.cos i) (Real.sin i) := by
+    rw [hh]
+    apply V3.ext' <;> simp only [V3.sdiv, V3.smul] <;> field_simp
+  have hdot : V3.dot S.p S.v = g * e * Real.sin E :=
+    r_dot_v a e fac g _ _ _ _ _ _ _ _ hfac hcO hci hcw hane hrne
+  obtain ⟨hz, hul⟩ := argument_of_latitude_pair a e fac g (Real.cos Om) (Real.sin Om) (Real.cos i) (Real.sin i)
+    (Real.cos om) (Real.sin om) (Real.cos E) (Real.sin E) hcO
+  rw [← hS] at hz hul
+  -- recovered scalars
+  have ha_rec : 1 / ((1 + 1) / (a * (1 - e * Real.cos E)) - GM * (2 / (a * (1 - e * Real.cos E)) - 1 / a) / GM) = a :=
+    semi_major_recovered GM a _ _ hGM.ne' hane (mul_ne_zero hane hrne) rfl
+  have he_rec : Real.sqrt (1 - fac * g * (fac * g) / GM / a) = e :=
+    eccentricity_recovered GM a e _ hGM.ne' hane he0.le (by
+      rw [show fac * g * (fac * g) = fac ^ 2 * g ^ 2 by ring, hfac, hg]; ring)
+  have hE_rec : Trig.atan2 (g * e * Real.sin E)
+      (a * a * Real.sqrt (GM / cube a) * (1 - a * (1 - e * Real.cos E) / a)) = E := by
+    rw [eccentric_anomaly_pair GM a e (Real.cos E) ha, ← hgd]
+    exact atan2_pos_mul (g * e) E (by positivity) hE
+  -- true anomaly
+  set f := trueAnomaly e E with hfd
+  have hvega : Trig.atan2 (Real.sqrt (1 - e * e) * Real.sin E) (Real.cos E - e) = f := rfl
+  obtain ⟨hcf, hsf⟩ := true_anomaly_cos_sin e E he0.le he1
+  rw [← hfd] at hcf hsf
+  have hfac' : Real.sqrt (1 - e * e) = fac := by rw [hfacd]; congr 1; ring
+  have hf_lo : -Real.pi < f := Complex.neg_pi_lt_arg _
+  have hf_hi : f ≤ Real.pi := Complex.arg_le_pi _
+  -- inclination and node
+  have hi_rec : Trig.atan2 (Real.sqrt (Real.sin Om * Real.sin i * (Real.sin Om * Real.sin i)
+      + -(Real.cos Om * Real.sin i) * -(Real.cos Om * Real.sin i))) (Real.cos i) = i := by
+    have : Real.sin Om * Real.sin i * (Real.sin Om * Real.sin i)
+        + -(Real.cos Om * Real.sin i) * -(Real.cos Om * Real.sin i) = Real.sin i ^ 2 := by
+      linear_combination (Real.sin i ^ 2) * hcO
+    rw [this, Real.sqrt_sq hsi.le]
+    have := atan2_pos_mul 1 i one_pos ⟨by linarith, hi1.le⟩
+    simpa using this
+  have hO_rec : Trig.atan2 (Real.sin Om * Real.sin i) (-(-(Real.cos Om * Real.sin i))) = Om := by
+    rw [neg_neg, mul_comm (Real.sin Om), mul_comm (Real.cos Om)]
+    exact atan2_pos_mul _ Om hsi hO
+  -- argument of latitude
+  have hX : orbX a e (Real.cos E) = a * (1 - e * Real.cos E) * Real.cos f := by
+    have hc : (1 - e * Real.cos E) * ((Real.cos E - e) / (1 - e * Real.cos E)) = Real.cos E - e := by
+      field_simp
+    rw [hcf, orbX, mul_assoc, hc]
+  have hY : orbY a fac (Real.sin E) = a * (1 - e * Real.cos E) * Real.sin f := by
+    have hc : (1 - e * Real.cos E) * (fac * Real.sin E / (1 - e * Real.cos E)) = fac * Real.sin E := by
+      field_simp
+    rw [hsf, orbY, hfac', mul_assoc a (1 - e * Real.cos E), hc]; ring
+  have hu_pair : Trig.atan2 S.p.z (-S.p.x * (wHat (Real.cos Om) (Real.sin Om) (Real.cos i) (Real.sin i)).y
+      + S.p.y * (wHat (Real.cos Om) (Real.sin Om) (Real.cos i) (Real.sin i)).x)
+      = Trig.atan2 (Real.sin i * (a * (1 - e * Real.cos E)) * Real.sin (om + f))
+          (Real.sin i * (a * (1 - e * Real.cos E)) * Real.cos (om + f)) := by
+    rw [hz, hul, hX, hY, Real.sin_add, Real.cos_add]
+    congr 1 <;> ring
+  obtain ⟨⟨n, hn⟩, hu_lo, hu_hi⟩ := atan2_pos_mul_mod (Real.sin i * (a * (1 - e * Real.cos E))) (om + f) (by positivity)
+  simp only [trs2kepler, hpN, hhN, hhu, hdot, trig_sqrt, trig_sin, trig_cos, trig_pi]
+  rw [hvN]
+  simp only [ha_rec, he_rec, hE_rec, hvega, wHat, hi_rec, hO_rec]
+  rw [show Trig.atan2 S.p.z (-S.p.x * -(Real.cos Om * Real.sin i) + S.p.y * (Real.sin Om * Real.sin i))
+      = Trig.atan2 (Real.sin i * (a * (1 - e * Real.cos E)) * Real.sin (om + f))
+          (Real.sin i * (a * (1 - e * Real.cos E)) * Real.cos (om + f)) from by simpa only [wHat] using hu_pair]
+  set u := Trig.atan2 (Real.sin i * (a * (1 - e * Real.cos E)) * Real.sin (om + f))
+          (Real.sin i * (a * (1 - e * Real.cos E)) * Real.cos (om + f)) with hud
+  have hpi := Real.pi_pos
+  have hdiff : u - f = om + 2 * Real.pi * n := by linarith
+  have hn_hi : (n : ℝ) < 1 := by
+    have h : 2 * Real.pi * (n : ℝ) < 2 * Real.pi * 1 := by linarith
+    exact lt_of_mul_lt_mul_left h (by positivity)
+  have hn_lo : (-2 : ℝ) < n := by
+    have h : 2 * Real.pi * (-2 : ℝ) < 2 * Real.pi * (n : ℝ) := by linarith
+    exact lt_of_mul_lt_mul_left h (by positivity)
+  have hn1 : n < 1 := by exact_mod_cast hn_hi
+  have hn2 : -2 < n := by exact_mod_cast hn_lo
+  have hcases : n = -1 ∨ n = 0 := by omega
+  have hom : (if u - f < 0 then u - f + (1 + 1) * Real.pi else u - f) = om := by
+    rcases hcases with hn' | hn'
+    · have hlt : u - f < 0 := by rw [hdiff, hn']; push_cast; linarith
+      rw [if_pos hlt, hdiff, hn']; push_cast; ring
+    · have hge : ¬ (u - f < 0) := by rw [hdiff, hn']; push_cast; linarith
+      rw [if_neg hge, hdiff, hn']; push_cast; ring
+  rw [hom]
+
 end Midgard.Props.C07
 
 #print axioms Midgard.Props.C07.radius
@@ -246,3 +373,4 @@ end Midgard.Props.C07
 #print axioms Midgard.Props.C07.half_angle_factor
 #print axioms Midgard.Props.C07.kepler2trs_eq_state
 #print axioms Midgard.Props.C07.fac_g_hypotheses
+#print axioms Midgard.Props.C07.trs2kepler_kepler2trs
